@@ -34,10 +34,10 @@ def get_target_history(history: History, target: Gindex) -> History:
                 child_node = node.get_left()
             else:
                 child_node = node.get_right()
-        if last is None or child_node.merkle_root() == last:
+        if last is not None and child_node.merkle_root() == last:
             continue
         out.append((key, child_node))
-        last = child_node
+        last = child_node.merkle_root()
 
     if not is_anchor:
         out = get_target_history(out, Gindex(pivot | unanchor))
